@@ -26,6 +26,15 @@ Fixpoint digits_fuel (fuel : nat) (z : Z) : Z :=
   | S f => if z <? 10 then 1 else 1 + digits_fuel f (z / 10)
   end.
 
+(* a condition under a valuation of its atoms *)
+Fixpoint ceval (v : pcond -> bool) (c : pcond) : bool :=
+  match c with
+  | CNot a => negb (ceval v a)
+  | COr a b => ceval v a || ceval v b
+  | CAnd a b => ceval v a && ceval v b
+  | a => v a
+  end.
+
 Section PosEnd.
   Context (T : pos_table).       (* Gen.AstPos.pos_table *)
   Context (tokens : list str).   (* Gen.Tokens.xgo_tokens: Token.String() *)
@@ -43,17 +52,20 @@ Section PosEnd.
     | _ => Panic
     end.
 
-  Fixpoint eval_cond (n : node) (c : pcond) : bool :=
+  (* the atomic conditions, evaluated on a node *)
+  Definition atom_val (n : node) (c : pcond) : bool :=
     match c with
     | CNonNil f => match get f n with VNil => false | _ => true end
     | CLenPos f => match get f n with VList (_ :: _) => true | _ => false end
+    | CLenOne f => match get f n with VList [_] => true | _ => false end
     | CValid f => match get f n with VPos p => negb (p =? 0) | _ => false end
     | CFlag f => get_bool f n
     | CImplicit => match get "Obj" n with VTok k => ibase <=? k | _ => false end
-    | CNot a => negb (eval_cond n a)
-    | COr a b => eval_cond n a || eval_cond n b
-    | CAnd a b => eval_cond n a && eval_cond n b
+    | CTrue => true
+    | _ => false
     end.
+
+  Definition eval_cond (n : node) (c : pcond) : bool := ceval (atom_val n) c.
 
   Definition eval_expr (rp re : node -> M Z) (n : node) (e : pexpr) : M Z :=
     match e with
@@ -133,3 +145,341 @@ Section PosEnd.
   Definition pos_of (n : node) : M Z := pe (nsize n) true n.
   Definition end_of (n : node) : M Z := pe (nsize n) false n.
 End PosEnd.
+
+(* ------------------------------------------------------------------ the layout specification *)
+
+(* One kind's concrete syntax, as far as spans are concerned: the items that can be its first or
+   last token, left to right, each with the condition under which it is present.  Written from the
+   grammar comments of ast/ast.go and ast/ast_gop.go; interior tokens whose position is not
+   recorded are omitted (they can never be first or last). *)
+Inductive tlen :=
+| LFix (k : Z)                (* a token of fixed length *)
+| LStr (gs : list string)     (* the text is the concatenation of these string fields *)
+| LTok (g : string).          (* the spelling of the token in field g *)
+
+Inductive item :=
+| ITok (f : string) (l : tlen) (p : pcond)   (* a token whose start is recorded in position field f *)
+| IChild (f : string) (p : pcond)            (* a child node *)
+| IList (f : string)                         (* a list of children; present iff non-empty *)
+| IAt (f : string) (p : pcond)               (* a recorded boundary position (zero width): LambdaExpr.Last ... *)
+| IChildAt (f g : string).                   (* the boundary recorded in position field g of child f *)
+
+Record ktemplate := KT { k_items : list item; k_req : list pcond }.
+
+Definition item_present (v : pcond -> bool) (it : item) : bool :=
+  match it with
+  | ITok _ _ p | IChild _ p | IAt _ p => ceval v p
+  | IList f => v (CLenPos f)
+  | IChildAt _ _ => true
+  end.
+
+Definition item_start (it : item) : pexpr :=
+  match it with
+  | ITok f _ _ => PField f 0
+  | IChild f _ => PChildPos f
+  | IList f => PListFirstPos f
+  | IAt f _ => PField f 0
+  | IChildAt f g => PChildField f g
+  end.
+
+Definition item_end (it : item) : pexpr :=
+  match it with
+  | ITok f (LFix k) _ => PField f k
+  | ITok f (LStr gs) _ => PFieldStr f gs
+  | ITok f (LTok g) _ => PFieldTok f g
+  | IChild f _ => PChildEnd f
+  | IList f => PListLastEnd f
+  | IAt f _ => PField f 0
+  | IChildAt f g => PChildField f g
+  end.
+
+(* where the node starts / ends: the first / last present item (NoPos if there is none) *)
+Definition tfirst (v : pcond -> bool) (tm : list item) : pexpr :=
+  match find (item_present v) tm with Some it => item_start it | None => PNoPos end.
+Definition tlast (v : pcond -> bool) (tm : list item) : pexpr :=
+  match find (item_present v) (rev tm) with Some it => item_end it | None => PNoPos end.
+
+(* which branch of a method body a valuation selects *)
+Fixpoint select (v : pcond -> bool) (b : pbody) : option pexpr :=
+  match b with
+  | PRet e => Some e
+  | PIf c t e => if ceval v c then select v t else select v e
+  | POpaque => None
+  end.
+
+(* ---- decidable comparison of a method body with a template, over all valuations of the atoms ---- *)
+
+Definition list_eqb {A} (eq : A -> A -> bool) := fix go (a b : list A) : bool :=
+  match a, b with
+  | [], [] => true
+  | x :: a', y :: b' => eq x y && go a' b'
+  | _, _ => false
+  end.
+
+Definition pexpr_eqb (a b : pexpr) : bool :=
+  match a, b with
+  | PField f k, PField g j => String.eqb f g && (k =? j)
+  | PFieldStr f gs, PFieldStr g hs => String.eqb f g && list_eqb String.eqb gs hs
+  | PFieldTok f g, PFieldTok f' g' => String.eqb f f' && String.eqb g g'
+  | PChildPos f, PChildPos g | PChildEnd f, PChildEnd g
+  | PListFirstPos f, PListFirstPos g | PListLastEnd f, PListLastEnd g
+  | PListFirstEnd f, PListFirstEnd g => String.eqb f g
+  | PChildField f g, PChildField f' g' => String.eqb f f' && String.eqb g g'
+  | PNoPos, PNoPos => true
+  | _, _ => false
+  end.
+
+(* equal, or "the End of the first element" against "the End of the last" of a one-element list *)
+Definition pexpr_ok (v : pcond -> bool) (a b : pexpr) : bool :=
+  pexpr_eqb a b ||
+  match a, b with
+  | PListFirstEnd f, PListLastEnd g => String.eqb f g && v (CLenOne f)
+  | _, _ => false
+  end.
+
+Fixpoint pcond_eqb (a b : pcond) : bool :=
+  match a, b with
+  | CNonNil f, CNonNil g | CLenPos f, CLenPos g | CValid f, CValid g | CFlag f, CFlag g
+  | CLenOne f, CLenOne g => String.eqb f g
+  | CImplicit, CImplicit | CTrue, CTrue => true
+  | CNot x, CNot y => pcond_eqb x y
+  | COr x1 x2, COr y1 y2 | CAnd x1 x2, CAnd y1 y2 => pcond_eqb x1 y1 && pcond_eqb x2 y2
+  | _, _ => false
+  end.
+
+Fixpoint atoms_of (c : pcond) : list pcond :=
+  match c with
+  | CNot a => atoms_of a
+  | COr a b | CAnd a b => atoms_of a ++ atoms_of b
+  | a => [a]
+  end.
+
+Fixpoint atoms_of_body (b : pbody) : list pcond :=
+  match b with
+  | PRet _ | POpaque => []
+  | PIf c t e => atoms_of c ++ atoms_of_body t ++ atoms_of_body e
+  end.
+
+Definition atoms_of_item (it : item) : list pcond :=
+  match it with
+  | ITok _ _ p | IChild _ p | IAt _ p => atoms_of p
+  | IList f => [CLenPos f]
+  | IChildAt _ _ => []
+  end.
+
+(* the lists of one element are non-empty: the only relation between atoms *)
+Definition len_atoms (l : list pcond) : list pcond :=
+  flat_map (fun c => match c with CLenOne f => [CLenOne f; CLenPos f] | _ => [] end) l.
+
+Definition mem_c (c : pcond) (l : list pcond) : bool := existsb (pcond_eqb c) l.
+Fixpoint dedup_c (l : list pcond) : list pcond :=
+  match l with [] => [] | x :: t => if mem_c x t then dedup_c t else x :: dedup_c t end.
+
+Fixpoint all_assign (atoms : list pcond) : list (list (pcond * bool)) :=
+  match atoms with
+  | [] => [[]]
+  | a :: t => flat_map (fun r => [(a, true) :: r; (a, false) :: r]) (all_assign t)
+  end.
+
+Definition look (a : list (pcond * bool)) (c : pcond) : bool :=
+  match c with
+  | CTrue => true
+  | _ => match find (fun p => pcond_eqb (fst p) c) a with Some (_, b) => b | None => false end
+  end.
+
+Definition consistent (v : pcond -> bool) (atoms : list pcond) : bool :=
+  forallb (fun c => match c with CLenOne f => implb (v c) (v (CLenPos f)) | _ => true end) atoms.
+
+Definition kind_atoms (bp be : pbody) (kt : ktemplate) : list pcond :=
+  let base := atoms_of_body bp ++ atoms_of_body be ++ flat_map atoms_of_item (k_items kt) ++ flat_map atoms_of (k_req kt) in
+  let one := flat_map (fun it => match it with IList f => [CLenOne f] | _ => [] end) (k_items kt) in
+  dedup_c (base ++ one ++ len_atoms (base ++ one)).
+
+Definition kind_span_ok (bp be : pbody) (kt : ktemplate) : bool :=
+  let atoms := kind_atoms bp be kt in
+  forallb (fun a =>
+             let v := look a in
+             implb (forallb (ceval v) (k_req kt) && consistent v atoms)
+                   (match select v bp, select v be with
+                    | Some ep, Some ee => pexpr_ok v ep (tfirst v (k_items kt)) && pexpr_ok v ee (tlast v (k_items kt))
+                    | _, _ => false
+                    end))
+          (all_assign atoms).
+
+(* ---- the templates ---- *)
+Definition T (f : string) (k : Z) := ITok f (LFix k) CTrue.           (* mandatory fixed-length token *)
+Definition Tv (f : string) (k : Z) := ITok f (LFix k) (CValid f).      (* optional token: present iff its position is valid *)
+Definition Ch (f : string) := IChild f CTrue.                          (* mandatory child *)
+Definition Op (f : string) := IChild f (CNonNil f).                    (* optional child *)
+Definition iff_c (a b : pcond) := COr (CAnd a b) (CAnd (CNot a) (CNot b)).
+Definition imp_c (a b : pcond) := COr (CNot a) b.
+
+Definition templates : list (string * ktemplate) :=
+  [ ("Comment", KT [ITok "Slash" (LStr ["Text"]) CTrue] []);
+    ("CommentGroup", KT [IList "List"] [CLenPos "List"]);
+    (* Names Type Tag   (an embedded field has no Names; Doc/Comment lie outside the span) *)
+    ("Field", KT [IList "Names"; Ch "Type"; Op "Tag"] [CNonNil "Type"]);
+    (* "(" List ")"  — the parentheses come in pairs; a result list may have none *)
+    ("FieldList", KT [Tv "Opening" 1; IList "List"; Tv "Closing" 1] [iff_c (CValid "Opening") (CValid "Closing")]);
+    ("BadExpr", KT [IAt "From" CTrue; IAt "To" CTrue] []);
+    ("BadStmt", KT [IAt "From" CTrue; IAt "To" CTrue] []);
+    ("BadDecl", KT [IAt "From" CTrue; IAt "To" CTrue] []);
+    (* an implicitly declared identifier has no text *)
+    ("Ident", KT [IAt "NamePos" CImplicit; ITok "NamePos" (LStr ["Name"]) (CNot CImplicit)] []);
+    ("BasicLit", KT [ITok "ValuePos" (LStr ["Value"]) CTrue] []);
+    ("NumberUnitLit", KT [ITok "ValuePos" (LStr ["Value"; "Unit"]) CTrue] []);
+    (* domain`text` *)
+    ("DomainTextLit", KT [IChildAt "Domain" "NamePos"; ITok "ValuePos" (LStr ["Value"]) CTrue] [CNonNil "Domain"]);
+    ("Ellipsis", KT [T "Ellipsis" 3; Op "Elt"] []);
+    ("FuncLit", KT [Ch "Type"; Ch "Body"] [CNonNil "Type"; CNonNil "Body"]);
+    ("CompositeLit", KT [Op "Type"; T "Lbrace" 1; T "Rbrace" 1] []);
+    ("ParenExpr", KT [T "Lparen" 1; T "Rparen" 1] []);
+    ("SelectorExpr", KT [Ch "X"; Ch "Sel"] [CNonNil "X"; CNonNil "Sel"]);
+    ("IndexExpr", KT [Ch "X"; T "Rbrack" 1] [CNonNil "X"]);
+    ("IndexListExpr", KT [Ch "X"; T "Rbrack" 1] [CNonNil "X"]);
+    ("SliceExpr", KT [Ch "X"; T "Rbrack" 1] [CNonNil "X"]);
+    ("TypeAssertExpr", KT [Ch "X"; T "Rparen" 1] [CNonNil "X"]);
+    (* Fun "(" Args ")"   |   Fun Args   (command style: NoParenEnd records the end) *)
+    ("CallExpr", KT [Ch "Fun"; ITok "Rparen" (LFix 1) (CNot (CValid "NoParenEnd")); IAt "NoParenEnd" (CValid "NoParenEnd")]
+                    [CNonNil "Fun"]);
+    ("StarExpr", KT [T "Star" 1; Ch "X"] [CNonNil "X"]);
+    ("UnaryExpr", KT [IAt "OpPos" CTrue; Ch "X"] [CNonNil "X"]);
+    ("BinaryExpr", KT [Ch "X"; Ch "Y"] [CNonNil "X"; CNonNil "Y"]);
+    ("KeyValueExpr", KT [Ch "Key"; Ch "Value"] [CNonNil "Key"; CNonNil "Value"]);
+    ("ArrayType", KT [T "Lbrack" 1; Ch "Elt"] [CNonNil "Elt"]);
+    ("StructType", KT [T "Struct" 6; Ch "Fields"] [CNonNil "Fields"]);
+    (* ["func"] [TypeParams] Params [Results]: type parameters only after the keyword *)
+    ("FuncType", KT [Tv "Func" 4; Ch "Params"; Op "Results"] [CNonNil "Params"]);
+    ("InterfaceType", KT [T "Interface" 9; Ch "Methods"] [CNonNil "Methods"]);
+    ("MapType", KT [T "Map" 3; Ch "Value"] [CNonNil "Value"]);
+    ("ChanType", KT [IAt "Begin" CTrue; Ch "Value"] [CNonNil "Value"]);
+    ("DeclStmt", KT [Ch "Decl"] [CNonNil "Decl"]);
+    (* ";"  — omitted in the source when Implicit *)
+    ("EmptyStmt", KT [IAt "Semicolon" (CFlag "Implicit"); ITok "Semicolon" (LFix 1) (CNot (CFlag "Implicit"))] []);
+    ("LabeledStmt", KT [Ch "Label"; Ch "Stmt"] [CNonNil "Label"; CNonNil "Stmt"]);
+    ("ExprStmt", KT [Ch "X"] [CNonNil "X"]);
+    (* Chan "<-" Values ["..."] *)
+    ("SendStmt", KT [Ch "Chan"; IList "Values"; Tv "Ellipsis" 3] [CNonNil "Chan"; CLenPos "Values"]);
+    ("IncDecStmt", KT [Ch "X"; T "TokPos" 2] [CNonNil "X"]);
+    ("AssignStmt", KT [IList "Lhs"; IList "Rhs"] [CLenPos "Lhs"; CLenPos "Rhs"]);
+    ("GoStmt", KT [T "Go" 2; Ch "Call"] [CNonNil "Call"]);
+    ("DeferStmt", KT [T "Defer" 5; Ch "Call"] [CNonNil "Call"]);
+    ("ReturnStmt", KT [T "Return" 6; IList "Results"] []);
+    ("BranchStmt", KT [ITok "TokPos" (LTok "Tok") CTrue; Op "Label"] []);
+    (* "{" List "}"  — the closing brace may be missing after a syntax error *)
+    ("BlockStmt", KT [T "Lbrace" 1; IList "List"; Tv "Rbrace" 1] []);
+    ("IfStmt", KT [T "If" 2; Ch "Body"; Op "Else"] [CNonNil "Body"]);
+    ("CaseClause", KT [T "Case" 4; T "Colon" 1; IList "Body"] []);
+    ("SwitchStmt", KT [T "Switch" 6; Ch "Body"] [CNonNil "Body"]);
+    ("TypeSwitchStmt", KT [T "Switch" 6; Ch "Body"] [CNonNil "Body"]);
+    ("CommClause", KT [T "Case" 4; T "Colon" 1; IList "Body"] []);
+    ("SelectStmt", KT [T "Select" 6; Ch "Body"] [CNonNil "Body"]);
+    ("ForStmt", KT [T "For" 3; Ch "Body"] [CNonNil "Body"]);
+    ("RangeStmt", KT [T "For" 3; Ch "Body"] [CNonNil "Body"]);
+    (* [Name] Path  — EndPos overrides the end when set *)
+    ("ImportSpec", KT [Op "Name"; Ch "Path"; IAt "EndPos" (CValid "EndPos")] [CNonNil "Path"]);
+    (* Names [Type] ["tag"] ["=" Values].
+       FINDING: ValueSpec.End ignores the Tag of a classfile field; the last clause of the requirement
+       restricts the theorem to the value specs for which End is right (see C17_span_refuted_ValueSpecTag) *)
+    ("ValueSpec", KT [IList "Names"; Op "Type"; Op "Tag"; IList "Values"]
+                     [CLenPos "Names"; COr (CNot (CNonNil "Tag")) (CLenPos "Values")]);
+    ("TypeSpec", KT [Ch "Name"; Ch "Type"] [CNonNil "Name"; CNonNil "Type"]);
+    (* Tok Spec   |   Tok "(" Specs ")" *)
+    ("GenDecl", KT [ITok "TokPos" (LTok "Tok") CTrue; IList "Specs"; Tv "Rparen" 1]
+                   [imp_c (CNot (CValid "Rparen")) (CLenOne "Specs")]);
+    (* "func" [Recv] Name Type' [Body]: by go/ast convention Type starts at the keyword, so Recv and Name
+       lie inside its span *)
+    ("FuncDecl", KT [Ch "Type"; Op "Body"] [CNonNil "Type"]);
+    ("SliceLit", KT [T "Lbrack" 1; T "Rbrack" 1] []);
+    ("MatrixLit", KT [T "Lbrack" 1; T "Rbrack" 1] []);
+    ("ElemEllipsis", KT [Ch "Elt"; T "Ellipsis" 3] [CNonNil "Elt"]);
+    (* First and Last record the two boundaries *)
+    ("LambdaExpr", KT [IAt "First" CTrue; IAt "Last" CTrue] []);
+    ("LambdaExpr2", KT [IAt "First" CTrue; Ch "Body"] [CNonNil "Body"]);
+    (* "for" [Key ","] Value "in" X ["if" [Init ";"] Cond] *)
+    ("ForPhrase", KT [T "For" 3; Ch "X"; Op "Cond"] [CNonNil "X"]);
+    ("ComprehensionExpr", KT [T "Lpos" 1; T "Rpos" 1] []);
+    ("ForPhraseStmt", KT [IChildAt "ForPhrase" "For"; Ch "Body"] [CNonNil "ForPhrase"; CNonNil "Body"]);
+    (* [First] ":" [Last] [":" [Expr3]] *)
+    ("RangeExpr", KT [Op "First"; T "To" 1; Op "Last"; Tv "Colon2" 1; Op "Expr3"] []);
+    (* X ("!" | "?") [":" Default] *)
+    ("ErrWrapExpr", KT [Ch "X"; T "TokPos" 1; Op "Default"] [CNonNil "X"]);
+    (* "func" [Recv] Name "=" "(" Funcs ")" *)
+    ("OverloadFuncDecl", KT [T "Func" 4; T "Rparen" 1] []);
+    (* "$" Name   |   "$" "{" Name "}" *)
+    ("EnvExpr", KT [T "TokPos" 1; Ch "Name"; Tv "Rbrace" 1] [CNonNil "Name"]);
+    ("Package", KT [] []) ].
+
+(* File has no template: its End is a loop over Decls (modelled by hand, compared by K-diff only) *)
+Definition untemplated : list string := ["File"].
+
+Definition span_table_ok (bodies : pos_table) : bool :=
+  forallb (fun kt => match assoc (fst kt) bodies with Some _ => true | None => false end) templates &&
+  forallb (fun k => match assoc k templates with None => true | Some _ => false end) untemplated &&
+  forallb (fun kb => match kb with
+                     | (k, (bp, be)) =>
+                         match assoc k templates with
+                         | Some kt => kind_span_ok bp be kt
+                         | None => existsb (String.eqb k) untemplated
+                         end
+                     end) bodies.
+
+(* ---- the specification as a function: where the template says a node starts and ends ---- *)
+Section Spec.
+  Context (tokens : list str) (ibase : Z).
+
+  Fixpoint spec_pe (fuel : nat) (w : bool) (n : node) : M Z :=
+    match fuel with
+    | O => OutOfFuel
+    | S f =>
+        match assoc (kind n) templates with
+        | None => Panic
+        | Some kt =>
+            let v := atom_val ibase n in
+            eval_expr tokens (spec_pe f true) (spec_pe f false) n
+                      (if w then tfirst v (k_items kt) else tlast v (k_items kt))
+        end
+    end.
+
+  (* the node satisfies the side conditions of its template (mandatory children present ...) *)
+  Definition req_ok (n : node) : bool :=
+    match assoc (kind n) templates with
+    | Some kt => forallb (eval_cond ibase n) (k_req kt)
+    | None => false
+    end.
+  Definition good_tree (t : node) : bool := forallb req_ok (subnodes t).
+End Spec.
+
+(* ---- nesting and order: the intervals of the present items of a node ---- *)
+Section Layout.
+  Context (tokens : list str) (ibase : Z).
+
+  Fixpoint mapM17 {A B} (f : A -> M B) (l : list A) : M (list B) :=
+    match l with
+    | [] => Ok []
+    | x :: t => y <- f x ;; r <- mapM17 f t ;; Ok (y :: r)
+    end.
+
+  (* [start, end) of one item of node n, by the specification *)
+  Definition item_iv (fuel : nat) (n : node) (it : item) : M (Z * Z) :=
+    s <- eval_expr tokens (spec_pe tokens ibase fuel true) (spec_pe tokens ibase fuel false) n (item_start it) ;;
+    e <- eval_expr tokens (spec_pe tokens ibase fuel true) (spec_pe tokens ibase fuel false) n (item_end it) ;;
+    Ok (s, e).
+
+  Definition present_items (n : node) : list item :=
+    match assoc (kind n) templates with
+    | Some kt => filter (item_present (atom_val ibase n)) (k_items kt)
+    | None => []
+    end.
+
+  (* the intervals follow one another: each is well-formed and ends before the next starts.
+     This is what "the tree records the positions of a token sequence" means for one node. *)
+  Fixpoint chain (l : list (Z * Z)) : Prop :=
+    match l with
+    | [] => True
+    | (s, e) :: t => s <= e /\ match t with [] => True | (s', _) :: _ => e <= s' end /\ chain t
+    end.
+
+  Definition laid_out (fuel : nat) (n : node) (ivs : list (Z * Z)) : Prop :=
+    mapM17 (item_iv fuel n) (present_items n) = Ok ivs /\ chain ivs.
+End Layout.
